@@ -4,7 +4,6 @@ import (
 	"errors"
 	"fmt"
 	"reflect"
-	"sort"
 	"strings"
 
 	"gorm.io/gorm"
@@ -219,6 +218,13 @@ func runKeys(c *core.Ctx, st pred.Style, base []pred.Row) {
 		deleted := map[int64]bool{}
 		var reload func()
 		switch kt.name {
+		case "rws", "rwsd":
+			// a row whose key is the zero value: a record without key must never name it
+			if rows[0].ID != 0 && r.Chance(1, 3) {
+				rows[0].ID = 0
+			}
+		}
+		switch kt.name {
 		case "rws":
 			reload = func() { load(rows) }
 		case "rwsd":
@@ -236,6 +242,16 @@ func runKeys(c *core.Ctx, st pred.Style, base []pred.Row) {
 		}
 		reload()
 		n := len(rows)
+		uid := func(i int) int64 {
+			if kt.name == "rwc" {
+				return int64(i + 1)
+			}
+			return rows[i].ID
+		}
+		idxOf := map[int64]int{}
+		for i := range rows {
+			idxOf[uid(i)] = i
+		}
 		live := func(i int) bool { return !kt.soft || !deleted[rows[i].ID] }
 		reps := 1
 		if kt.soft {
@@ -244,6 +260,8 @@ func runKeys(c *core.Ctx, st pred.Style, base []pred.Row) {
 		for rep := 0; rep < reps; rep++ {
 			cc := genChain(r, st, n)
 			fin := core.Pick(r, keyFinishers)
+			fam := finFamily(fin)
+			isRead := fam == "First" || fam == "Take" || fam == "Last"
 			// mostly a key that names a row, sometimes one that names none
 			pickKey := func() int {
 				if r.Chance(1, 8) {
@@ -254,19 +272,69 @@ func runKeys(c *core.Ctx, st pred.Style, base []pred.Row) {
 			k := pickKey()
 			k2 := k
 			var ks []int
-			var keyUnits [][]int // every unit is the set of row indexes its key(s) name
-			single := func(k int) []int {
-				if k < n {
-					return []int{k}
+			// unitOf: the key unit of a value holding the records ks: the rows its keys name; has is false when no
+			// record carries a key (a record whose key is the zero value carries none, wherever it stands)
+			unitOf := func(ks []int) (set []int, has bool) {
+				set = []int{}
+				for _, x := range ks {
+					if x < 0 {
+						continue
+					}
+					if x >= n {
+						has = true
+						continue
+					}
+					if kt.name != "rwc" && rows[x].ID == 0 {
+						continue
+					}
+					has = true
+					set = append(set, x)
 				}
-				return []int{}
+				return set, has
 			}
-			litKeys := func(ks []int) string {
+			var keyUnits [][]int // every unit is the set of row indexes its key(s) name
+			var modelUnits int   // how many of them (the first ones) come from the value given to Model()
+			addUnit := func(ks []int) {
+				if set, has := unitOf(ks); has {
+					keyUnits = append(keyUnits, set)
+				}
+			}
+			litKeys := func(ks []int, ptrs bool) string {
 				parts := make([]string, len(ks))
 				for i, k := range ks {
 					parts[i] = kt.lit(rows, k)
+					if ptrs {
+						parts[i] = "&" + parts[i]
+					}
 				}
-				return "[" + strings.Join(parts, ", ") + "]"
+				return "{" + strings.Join(parts, ", ") + "}"
+			}
+			// forms of the values
+			mForm := core.Pick(r, []string{"&", "&", "&", "&&", "&&", "val"})
+			fForm := core.Pick(r, []string{"&", "&", "&", "&&", "&&", "val"})
+			sForm := core.Pick(r, []string{"&", "&", "&&", "val", "&[]*", "&&[]*", "[]*"})
+			if isRead && fForm == "val" {
+				fForm = "&&"
+			}
+			byValueFinisher := false
+			switch fin {
+			case "Model(key).Delete(keyless)", "Model(key).Delete(key2)", "Model(slice).Delete(keyless)":
+				// a finisher value that is no pointer, next to a model value: rare (a class of its own, see the signature)
+				if fForm == "val" {
+					if r.Chance(1, 3) {
+						byValueFinisher = true
+					} else {
+						fForm = "&"
+					}
+				}
+			}
+			sliceLit := func() string {
+				ptrs := strings.Contains(sForm, "[]*")
+				l := litKeys(ks, ptrs)
+				if ptrs {
+					return shapedLit(l, sForm)
+				}
+				return shapedLit("[]"+l, sForm)
 			}
 			chainText := strings.SplitN(cc.desc(), "."+finNames[cc.fin], 2)[0]
 			chainText = strings.TrimPrefix(chainText, "db.")
@@ -276,49 +344,53 @@ func runKeys(c *core.Ctx, st pred.Style, base []pred.Row) {
 				if r.Bool() {
 					k2 = pickKey()
 				}
-				keyUnits = [][]int{single(k), single(k2)}
-				call = fmt.Sprintf("db.Model(&%s).%s.Delete(&%s)", kt.lit(rows, k), chainText, kt.lit(rows, k2))
+				addUnit([]int{k})
+				modelUnits = len(keyUnits)
+				addUnit([]int{k2})
+				call = fmt.Sprintf("db.Model(%s).%s.Delete(%s)", shapedLit(kt.lit(rows, k), mForm), chainText, shapedLit(kt.lit(rows, k2), fForm))
 			case "Delete(slice)", "Model(slice).Delete(keyless)", "Model(slice).Update(col)":
 				m := r.Range(1, 3)
-				var set []int
 				for i := 0; i < m; i++ {
-					x := pickKey()
-					ks = append(ks, x)
-					if x < n {
-						set = append(set, x)
+					if r.Chance(1, 4) {
+						ks = append(ks, -1) // a record without key among the others
+					} else {
+						ks = append(ks, pickKey())
 					}
 				}
-				if set == nil {
-					set = []int{}
-				}
-				keyUnits = [][]int{set}
+				addUnit(ks)
 				switch fin {
 				case "Delete(slice)":
-					call = fmt.Sprintf("db.%s.Delete(&%s)", chainText, litKeys(ks))
+					call = fmt.Sprintf("db.%s.Delete(%s)", chainText, sliceLit())
 				case "Model(slice).Delete(keyless)":
-					call = fmt.Sprintf("db.Model(&%s).%s.Delete(&%s)", litKeys(ks), chainText, kt.lit(rows, -1))
+					modelUnits = len(keyUnits)
+					call = fmt.Sprintf("db.Model(%s).%s.Delete(%s)", sliceLit(), chainText, shapedLit(kt.lit(rows, -1), fForm))
 				default:
-					call = fmt.Sprintf("db.Model(&%s).%s.Update(\"mark\", %d)", litKeys(ks), chainText, markVal)
+					call = fmt.Sprintf("db.Model(%s).%s.Update(\"mark\", %d)", sliceLit(), chainText, markVal)
 				}
 			default:
-				keyUnits = [][]int{single(k)}
+				addUnit([]int{k})
+				model := shapedLit(kt.lit(rows, k), mForm)
 				switch fin {
 				case "Delete(key)":
-					call = fmt.Sprintf("db.%s.Delete(&%s)", chainText, kt.lit(rows, k))
+					call = fmt.Sprintf("db.%s.Delete(%s)", chainText, shapedLit(kt.lit(rows, k), fForm))
 				case "Model(key).Delete(keyless)":
-					call = fmt.Sprintf("db.Model(&%s).%s.Delete(&%s)", kt.lit(rows, k), chainText, kt.lit(rows, -1))
+					modelUnits = len(keyUnits)
+					call = fmt.Sprintf("db.Model(%s).%s.Delete(%s)", model, chainText, shapedLit(kt.lit(rows, -1), fForm))
 				case "Model(key).Update(col)":
-					call = fmt.Sprintf("db.Model(&%s).%s.Update(\"mark\", %d)", kt.lit(rows, k), chainText, markVal)
+					call = fmt.Sprintf("db.Model(%s).%s.Update(\"mark\", %d)", model, chainText, markVal)
 				case "Model(key).Updates(map)":
-					call = fmt.Sprintf("db.Model(&%s).%s.Updates(map[string]interface{}{\"mark\": %d})", kt.lit(rows, k), chainText, markVal)
+					call = fmt.Sprintf("db.Model(%s).%s.Updates(map[string]interface{}{\"mark\": %d})", model, chainText, markVal)
 				case "Model(key).Updates(struct)":
-					call = fmt.Sprintf("db.Model(&%s).%s.Updates(%s with Mark: %d)", kt.lit(rows, k), chainText, kt.lit(rows, -1), markVal)
+					call = fmt.Sprintf("db.Model(%s).%s.Updates(%s with Mark: %d)", model, chainText, kt.lit(rows, -1), markVal)
 				case "Model(key).Updates(&struct)":
-					call = fmt.Sprintf("db.Model(&%s).%s.Updates(&%s with Mark: %d)", kt.lit(rows, k), chainText, kt.lit(rows, -1), markVal)
+					if fForm == "val" {
+						fForm = "&"
+					}
+					call = fmt.Sprintf("db.Model(%s).%s.Updates(%s with Mark: %d)", model, chainText, shapedLit(kt.lit(rows, -1), fForm), markVal)
 				case "Updates(&struct with key)":
-					call = fmt.Sprintf("db.%s.Updates(&%s with Mark: %d)", chainText, kt.lit(rows, k), markVal)
+					call = fmt.Sprintf("db.%s.Updates(%s with Mark: %d)", chainText, shapedLit(kt.lit(rows, k), fForm), markVal)
 				default:
-					call = fmt.Sprintf("db.%s.%s(&%s)", chainText, finFamily(fin), kt.lit(rows, k))
+					call = fmt.Sprintf("db.%s.%s(%s)", chainText, fam, shapedLit(kt.lit(rows, k), fForm))
 				}
 			}
 			c.Logf("KCHAIN %s on %s", call, kt.name)
@@ -340,8 +412,8 @@ func runKeys(c *core.Ctx, st pred.Style, base []pred.Row) {
 			}
 			last := pred.Infix(tail)
 			whole := pred.Infix(cc.steps)
-			keyOK := func(i int) bool {
-				for _, set := range keyUnits {
+			keyOK := func(i int, units [][]int) bool {
+				for _, set := range units {
 					in := false
 					for _, x := range set {
 						if x == i {
@@ -354,19 +426,28 @@ func runKeys(c *core.Ctx, st pred.Style, base []pred.Row) {
 				}
 				return true
 			}
-			var want, alt []int64
+			var want, alt, noModel []int64
 			for i := range rows {
 				if !live(i) {
 					continue
 				}
-				if (before != nil && before.Eval(&rows[i]) == pred.T) || (last.Eval(&rows[i]) == pred.T && keyOK(i)) {
-					want = append(want, int64(i+1))
+				inBefore := before != nil && before.Eval(&rows[i]) == pred.T
+				inLast := last.Eval(&rows[i]) == pred.T
+				if inBefore || (inLast && keyOK(i, keyUnits)) {
+					want = append(want, uid(i))
 				}
 				// the other reading (the key restricts the whole chain), only to name a known class precisely
-				if whole.Eval(&rows[i]) == pred.T && keyOK(i) {
-					alt = append(alt, int64(i+1))
+				if whole.Eval(&rows[i]) == pred.T && keyOK(i, keyUnits) {
+					alt = append(alt, uid(i))
+				}
+				// the rows of the chain without the key of the value given to Model(), only to name a class precisely
+				if inBefore || (inLast && keyOK(i, keyUnits[modelUnits:])) {
+					noModel = append(noModel, uid(i))
 				}
 			}
+			pred.SortIDs(want)
+			pred.SortIDs(alt)
+			pred.SortIDs(noModel)
 
 			root := H.DB.Session(&gorm.Session{})
 			var got []int64
@@ -397,8 +478,8 @@ func runKeys(c *core.Ctx, st pred.Style, base []pred.Row) {
 						left[id] = true
 					}
 					for i := range rows {
-						if !left[int64(i+1)] {
-							got = append(got, int64(i+1))
+						if !left[uid(i)] {
+							got = append(got, uid(i))
 						}
 					}
 				}
@@ -411,40 +492,43 @@ func runKeys(c *core.Ctx, st pred.Style, base []pred.Row) {
 					return
 				}
 				if err = res.Error; err == nil {
-					got = []int64{kt.uid(out)}
+					got = []int64{recField(out, kt.uidField)}
 				}
 			}
+			mv := func(k int) interface{} { return shaped(kt.one(rows, k), mForm) }
+			fv := func(k int) interface{} { return shaped(kt.one(rows, k), fForm) }
+			sv := func() interface{} { return shaped(kt.many(rows, ks), sForm) }
 			switch fin {
 			case "Delete(key)":
-				removed(build(cc, root).Delete(kt.one(rows, k)))
+				removed(build(cc, root).Delete(fv(k)))
 			case "Model(key).Delete(keyless)":
-				removed(build(cc, root.Model(kt.one(rows, k))).Delete(kt.one(rows, -1)))
+				removed(build(cc, root.Model(mv(k))).Delete(fv(-1)))
 			case "Model(key).Delete(key2)":
-				removed(build(cc, root.Model(kt.one(rows, k))).Delete(kt.one(rows, k2)))
+				removed(build(cc, root.Model(mv(k))).Delete(fv(k2)))
 			case "Delete(slice)":
-				removed(build(cc, root).Delete(kt.many(rows, ks)))
+				removed(build(cc, root).Delete(sv()))
 			case "Model(slice).Delete(keyless)":
-				removed(build(cc, root.Model(kt.many(rows, ks))).Delete(kt.one(rows, -1)))
+				removed(build(cc, root.Model(sv())).Delete(fv(-1)))
 			case "Model(key).Update(col)":
-				changed(build(cc, root.Model(kt.one(rows, k))).Update("mark", markVal))
+				changed(build(cc, root.Model(mv(k))).Update("mark", markVal))
 			case "Model(key).Updates(map)":
-				changed(build(cc, root.Model(kt.one(rows, k))).Updates(map[string]interface{}{"mark": markVal}))
+				changed(build(cc, root.Model(mv(k))).Updates(map[string]interface{}{"mark": markVal}))
 			case "Model(key).Updates(struct)":
-				changed(build(cc, root.Model(kt.one(rows, k))).Updates(kt.marked(rows, -1, false)))
+				changed(build(cc, root.Model(mv(k))).Updates(kt.marked(rows, -1, false)))
 			case "Model(key).Updates(&struct)":
-				changed(build(cc, root.Model(kt.one(rows, k))).Updates(kt.marked(rows, -1, true)))
+				changed(build(cc, root.Model(mv(k))).Updates(shaped(kt.marked(rows, -1, true), fForm)))
 			case "Updates(&struct with key)":
-				changed(build(cc, root).Updates(kt.marked(rows, k, true)))
+				changed(build(cc, root).Updates(shaped(kt.marked(rows, k, true), fForm)))
 			case "Model(slice).Update(col)":
-				changed(build(cc, root.Model(kt.many(rows, ks))).Update("mark", markVal))
+				changed(build(cc, root.Model(sv())).Update("mark", markVal))
 			case "First(key)":
-				out := kt.one(rows, k)
+				out := fv(k)
 				read(build(cc, root).First(out), out)
 			case "Take(key)":
-				out := kt.one(rows, k)
+				out := fv(k)
 				read(build(cc, root).Take(out), out)
 			case "Last(key)":
-				out := kt.one(rows, k)
+				out := fv(k)
 				read(build(cc, root).Last(out), out)
 			}
 			sqlText := ""
@@ -455,9 +539,7 @@ func runKeys(c *core.Ctx, st pred.Style, base []pred.Row) {
 				}
 			}
 			c.Inc("key_chains")
-			c.Inc("key_" + kt.name + "_" + finFamily(fin))
-			fam := finFamily(fin)
-			isRead := fam == "First" || fam == "Take" || fam == "Last"
+			c.Inc("key_" + kt.name + "_" + fam)
 			readOK := func(ref []int64) bool {
 				if len(ref) == 0 {
 					return len(got) == 0
@@ -466,20 +548,24 @@ func runKeys(c *core.Ctx, st pred.Style, base []pred.Row) {
 					return false
 				}
 				in := false
-				lo, hi := rows[ref[0]-1].ID, rows[ref[0]-1].ID
+				lo, hi := rows[idxOf[ref[0]]].ID, rows[idxOf[ref[0]]].ID
 				for _, w := range ref {
 					in = in || w == got[0]
-					if id := rows[w-1].ID; id < lo {
+					if id := rows[idxOf[w]].ID; id < lo {
 						lo = id
 					} else if id > hi {
 						hi = id
 					}
 				}
+				gi, known := idxOf[got[0]]
+				if !known {
+					return false
+				}
 				switch fam {
 				case "First":
-					return in && rows[got[0]-1].ID == lo
+					return in && rows[gi].ID == lo
 				case "Last":
-					return in && rows[got[0]-1].ID == hi
+					return in && rows[gi].ID == hi
 				}
 				return in
 			}
@@ -498,6 +584,9 @@ func runKeys(c *core.Ctx, st pred.Style, base []pred.Row) {
 					// the soft-delete filter is added before the key, and closes the chain's OR groups in parentheses
 					sig = "soft-model-key-binds-whole-chain/" + fam
 					problems = append(problems, fmt.Sprintf("the observed rows are those of (whole chain) AND key: %v", alt))
+				} else if byValueFinisher && modelUnits > 0 && len(problems) == 1 && agrees(noModel) {
+					sig = "key/model-key-dropped-by-value-finisher/" + fam
+					problems = append(problems, fmt.Sprintf("the observed rows are those of the chain without the key of the value given to Model(): %v", noModel))
 				}
 			}
 			if mutated {
@@ -506,7 +595,7 @@ func runKeys(c *core.Ctx, st pred.Style, base []pred.Row) {
 			if len(problems) > 0 {
 				tab := []string{}
 				for i, rw := range rows {
-					line := fmt.Sprintf("uid %d %s", i+1, rw.String())
+					line := fmt.Sprintf("uid %d %s", uid(i), rw.String())
 					if kt.name == "rwc" {
 						line = fmt.Sprintf("uid %d loc %s %s", i+1, locs[i%2], rw.String())
 					}
@@ -526,8 +615,22 @@ func runKeys(c *core.Ctx, st pred.Style, base []pred.Row) {
 				continue
 			}
 			if len(want) > 0 {
-				c.Shape("key", kt.name, fin, k >= n, cc.shape())
+				forms := mForm + "/" + fForm
+				if ks != nil {
+					forms = sForm + "/" + fForm
+					keyless := 0
+					for _, x := range ks {
+						if x < 0 {
+							keyless++
+						}
+					}
+					forms += fmt.Sprintf("/%dof%d", keyless, len(ks))
+				}
+				c.Shape("key", kt.name, fin, forms, k >= n, rows[0].ID == 0, cc.shape())
 				c.Inc("nontrivial_key_chains")
+				if rows[0].ID == 0 {
+					c.Inc("nontrivial_key_chains_zero_key_row")
+				}
 			}
 		}
 	}
